@@ -1125,6 +1125,9 @@ class Facts:
         self.bodies = {}
         self.body_list = []
         for b in self.j['bodies']:
+            # `if matches!(x, A | B) { .. } else { .. }` (and any other flag set to a constant on each side of a join and
+            # switched on right after) is the same dispatch as the `match` it abbreviates: give each side its own edge
+            _thread_known_values(b)
             bd = Body(self, b)
             # closures in different impls can share def_path_str only if identical; keep first, list all
             self.bodies.setdefault(bd.id, bd)
@@ -1152,7 +1155,10 @@ class Facts:
                     dispatches = any(blk['term'].get('k') == 'switch' and len(blk['term'].get('targets', []) or []) >= 2 and
                                      any('assign' in st and st['rv'].get('k') == 'discr' and (st['rv'].get('adt') or '').endswith('self_referential::SchemaNode') for st in blk['stmts'])
                                      for blk in b.blocks)
-                    if not dispatches:
+                    # ... and one whose arms only build a value (`fn decimal_mode(&self) -> Option<DecimalMode>`: no call
+                    # anywhere) is a classifier, not a dispatch: its caller does the work, on the value it returns
+                    does_work = any(blk['term'].get('k') == 'call' and not blk.get('cleanup') for blk in b.blocks)
+                    if not (dispatches and does_work):
                         new.add(path)
         if not new:
             return []
